@@ -108,6 +108,8 @@ Names(fam) == CASE fam = "C15" /\ Prop = "C10" -> {"C10_RecordsEffectiveAddress"
                 [] fam = "C14reissue" -> {"C14_ExpiryWherePresented"}
                 [] fam = "C14lenAt" -> {"C14_MaxLengthEverywhere"} [] fam = "C03len" -> {"C03_FinalPacketWhateverItsSize"}
                 [] fam = "C14len" -> {"C14_MaxLength"} [] fam = "C14cookie" -> {"C14_CookieAcceptance"} [] fam = "C14deadline" -> {"C14_Deadline", "C14_OverlongRefused"}
+                \* listen() returned although nobody had asked it to stop (the record exists only then): whatever the scenario was about, nobody is served
+                [] fam = "returned-early" -> {"L_ListensUntilStopRequested"}
                 [] OTHER -> {}
 Clause(c, r) ==
   CASE c = "C15_ServedIffAdmitted" -> C15_ServedIffAdmitted(r) [] c = "C15_RefusedGetsNothing" -> C15_RefusedGetsNothing(r)
